@@ -93,10 +93,12 @@ func waFuncCanon(fd *waFuncDecl, recv string) (sig, body string) {
 			}
 		}
 	}
-	o := &canonOpts{Rename: canonLocals(pre, fd.Decl.Type.Params, fd.Decl.Type.Results, stmts)}
+	o := canonOptsFor(pre, fd.Decl.Type.Params, fd.Decl.Type.Results, stmts)
 	var parts []string
 	for _, s := range stmts {
-		parts = append(parts, canonAST(s, o))
+		if cs := canonAST(s, o); cs != "" {
+			parts = append(parts, cs)
+		}
 	}
 	return canonAST(fd.Decl.Type.Params, o) + " => " + canonAST(fd.Decl.Type.Results, o), strings.Join(parts, "\n")
 }
@@ -106,10 +108,12 @@ func goFuncCanon(g goFunc) (sig, body string) {
 	if g.Recv != "" {
 		pre[g.Recv] = "$recv"
 	}
-	o := &canonOpts{Rename: canonLocals(pre, g.Decl.Type.Params, g.Decl.Type.Results, g.Decl.Body.List)}
+	o := canonOptsFor(pre, g.Decl.Type.Params, g.Decl.Type.Results, g.Decl.Body.List)
 	var parts []string
 	for _, s := range g.Decl.Body.List {
-		parts = append(parts, canonAST(s, o))
+		if cs := canonAST(s, o); cs != "" {
+			parts = append(parts, cs)
+		}
 	}
 	return canonAST(g.Decl.Type.Params, o) + " => " + canonAST(g.Decl.Type.Results, o), strings.Join(parts, "\n")
 }
@@ -222,7 +226,7 @@ func waTopStmts(fd *waFuncDecl, recv string) map[string]string {
 		}
 	}
 	for _, s := range stmts {
-		cs := canonAST(s, &canonOpts{Rename: canonLocals(pre, s)})
+		cs := canonAST(s, canonOptsFor(pre, s))
 		if h, ok := stmtHash(cs); ok {
 			out[h] = cs
 		}
@@ -237,7 +241,7 @@ func goTopStmts(g goFunc) map[string]string {
 		pre[g.Recv] = "$recv"
 	}
 	for _, s := range g.Decl.Body.List {
-		cs := canonAST(s, &canonOpts{Rename: canonLocals(pre, s)})
+		cs := canonAST(s, canonOptsFor(pre, s))
 		if h, ok := stmtHash(cs); ok {
 			out[h] = cs
 		}
